@@ -348,6 +348,42 @@ def w_construct(cs):
     return [job(0x0A0A, 0xA1, 0xA2, 0xA3), job(0x0B0B, 0xB1, 0xB2, 0xB3), job(0x0C0C, 0xC1, 0xC2, 0xC3)]
 
 
+def w_enumunk(cs):
+    T = cs.s
+
+    def job(vals, tail):
+        d = bytes([len(vals)]) + b"".join(v.to_bytes(2, "little") for v in vals) + bytes([tail]) + b"\xEE"
+
+        def f():
+            s = io.BytesIO(d)
+            o = T(s)
+            return ([int(x) for x in o.v], [repr(x) for x in o.v], int(o.t), s.tell(), o.dumps() == d[: s.tell()])
+        return f
+    # values that are no members, repeated within a thread and differing between the threads by multiples of 64 / 256
+    # (whatever is remembered per unknown value must not be handed to another thread's value)
+    return [job([0x1234, 0x1234, 1, 0x1234, 0x1234], 0xA1), job([0x1234 + 64, 0x1234 + 128, 0x1234 + 64, 2, 0x1234 + 256], 0xB2),
+            job([0x1234 + 192, 0x1234 + 1024, 0x1234 + 192], 0xC3)]
+
+
+def w_unionbits(cs):
+    T = cs.s
+
+    def job(k, raw, level):
+        d = bytes([k]) + raw.to_bytes(4, "little") + bytes([k ^ 0xFF]) + b"\xEE"
+
+        def f():
+            s = io.BytesIO(d)
+            o = T(s)
+            d1 = o.dumps()
+            before = int(o.attr.level)
+            o.attr.level = level
+            d2 = o.dumps()
+            u = cs.A(level=level)
+            return (d1, before, d2, int(o.attr.level), int(o.attr.w), u.dumps(), s.tell())
+        return f
+    return [job(1, 0x00000ABC, 0x123), job(2, 0xFFFFF555, 0xFFF), job(3, 0x12345678, 0x001)]
+
+
 WORKLOADS = [
     ("expr", "struct s { uint8 n; uint8 m; char d[(n + m) * 2 - 1]; uint16 v[n]; uint8 z; };", w_expr),
     ("bits", "enum E : uint8 { A, B, C };\nstruct s { uint16 a:3; uint16 b:13; E e:4; uint8 r:4; int32 x; };", w_bits),
@@ -383,6 +419,10 @@ WORKLOADS = [
     # instances that are constructed, not parsed: members left at their defaults are changed in place below the top level
     ("construct", "struct hdr { uint8 flags; uint8 tags[3]; };\nstruct pt { uint8 x; uint16 y; };\n"
                   "struct s { uint16 id; hdr h; pt pts[2]; uint8 grid[2][2]; uint8 t; };", w_construct),
+    # enum values that are no members (an object is made for each: nothing remembered for one value may reach another)
+    ("enumunk", "enum K : uint16 { A = 1, B = 2 };\nstruct s { uint8 n; K v[n]; uint8 t; };", w_enumunk),
+    # a union whose written member is a bit-field on its widest storage type: dumped and assigned to by every thread
+    ("unionbits", "union A { uint32 level : 12; uint16 w; };\nstruct s { uint8 k; A attr; uint8 t; };", w_unionbits),
 ]
 
 
